@@ -93,13 +93,17 @@ def genMethodF (d : Data) (mk : MockD) (m : MethodD) : Option MethodF :=
     callsBody := genCallsBody m
     resetBody := if d.resets then some (genResetBody m.name) else none }
 
+/-- the type argument the self-check line uses for a type parameter -/
+def TParamD.typeArg (t : TParamD) : Str :=
+  match t.constraint with
+  | some c => c
+  | none => t.typeStr
+
 def genMockF (d : Data) (mk : MockD) : Option MockF :=
   (mk.methods.mapM (genMethodF d mk)).map fun ms =>
   { ifaceName := mk.ifaceName, mockName := mk.mockName, tparams := mk.tparams
     ensure := if d.skip then none
-              else some (mk.tparams.map fun t => match t.constraint with
-                                                  | some c => c
-                                                  | none => t.typeStr)
+              else some (mk.tparams.map TParamD.typeArg)
     methods := ms
     resetAll := if d.resets then some (mk.methods.flatMap fun m => genResetBody m.name) else none }
 
